@@ -23,6 +23,14 @@ def spec(tier):
     obs.append(CH(name="outcomes_P1_q00_overcommit", harness="c09.ledger",
                   sym=dict(t1=I(0, 2), t2=I(1, 2), d0=I(1, 2), m0=I(9, 12), m1=I(9, 12), sus_t=I(-1, 3)),
                   fixed=dict(P=1, q0=0, q1=0, q2=0, d1=1, d2=2, m2=1, sus_pool=0, K=7, oc=True), timeout=900))
+    # pool-level pressure: overcommit on, three containers of 20 GB each in a 40 GB pool, every one within its own
+    # allocation while together they may exceed the pool: a pool-level kill ends its victim in that very tick
+    for (t1, t2) in ((0, 0), (0, 1), (1, 2)) if th else ((0, 1),):
+        obs.append(CH(name=f"pool_pressure_t{t1}{t2}", harness="c09.ledger",
+                      sym=dict(m0=I(8, 20), m1=I(8, 20), m2=I(1, 20), d0=I(1, 3), d1=I(1, 2)),
+                      fixed=dict(P=1, q0=0, q1=0, q2=0, t1=t1, t2=t2, d2=2, sus_t=-1, sus_pool=0, K=7, oc=True, alloc=20), timeout=1200))
+    obs.append(twin("ledger_pool_kill", "c09.ledger", dict(m0=I(8, 20), m1=I(8, 20)),
+                    dict(P=1, q0=0, q1=0, q2=0, t1=0, t2=1, d0=2, d1=2, d2=2, m2=15, sus_t=-1, sus_pool=0, K=7, oc=True, alloc=20), "pool_kill"))
     osym = dict(r1=I(0, 25), d1=I(0, 1), alloc=I(1, 6), my=I(0, 7))
     obs.append(twin("outcome_fail", "c09.outcome_states", osym, dict(r0=20, d0=1, dy=1), "fail"))
     obs.append(twin("outcome_zero_tick_tail", "c09.outcome_states", osym, dict(r0=20, d0=1, dy=1), "zero_tick_tail"))
